@@ -442,3 +442,44 @@ Proof.
   apply flat_map_ext. intros a1. rewrite map_map. apply map_ext. intros a2. cbn [a_pos shift_atom].
   unfold pdist. rewrite pd_lattice by assumption. reflexivity.
 Qed.
+
+(* ------------------------------------------------------------------ coordNum with a pair list *)
+Lemma rsum_flat_map {A B} (f : B -> R) (h : A -> list B) l : rsum f (flat_map h l) = rsum (fun a => rsum f (h a)) l.
+Proof. induction l as [|a l IH]; cbn [flat_map rsum]; [reflexivity|]. rewrite rsum_app, IH. reflexivity. Qed.
+Lemma combine_map_self {A B} (f : A -> B) (l : list A) : combine (map f l) l = map (fun x => (f x, x)) l.
+Proof. induction l as [|a l IH]; cbn [map combine]; [reflexivity|]. rewrite IH. reflexivity. Qed.
+Lemma switching_clamp r0 r0v en ed tol cell (p1 p2 : V3) :
+  switching Rops r0 r0v en ed tol cell p1 p2 =
+  (if Rltb (switching_raw Rops r0 r0v en ed tol cell p1 p2) 0 then 0 else switching_raw Rops r0 r0v en ed tol cell p1 p2).
+Proof. unfold switching, switching_raw. destruct (position_distance Rops cell p1 p2) as [[x y] z]. reflexivity. Qed.
+Lemma coordnum_all_pairs r0 r0v en ed tol cell g1 g2 :
+  cv_coordnum Rops r0 r0v en ed tol cell g1 g2 =
+  rsum (fun pr => switching Rops r0 r0v en ed tol cell (a_pos (fst pr)) (a_pos (snd pr))) (all_pairs g1 g2).
+Proof.
+  unfold cv_coordnum, all_pairs. rewrite pair_sum_eq, rsum_flat_map. apply rsum_ext. intros a1 _. rewrite rsum_map. reflexivity.
+Qed.
+(* a pair list built at the current positions gives exactly the full sum: the skipped pairs are those whose
+   switching function is clamped to zero anyway *)
+Lemma coordnum_pairlist_exact r0 r0v en ed tol cell g1 g2 : 0 <= tol ->
+  cv_coordnum_pl Rops (pairlist_build Rops r0 r0v en ed tol cell g1 g2) r0 r0v en ed tol cell g1 g2 =
+  cv_coordnum Rops r0 r0v en ed tol cell g1 g2.
+Proof.
+  intros Ht. rewrite coordnum_all_pairs. unfold cv_coordnum_pl, pairlist_build. rewrite lsum_eq, combine_map_self, rsum_map.
+  apply rsum_ext. intros pr _. cbn [fst snd]. unfold nhalf. rs.
+  destruct (Rltb (- (tol * (1 / 2))) _) eqn:E; [reflexivity|].
+  apply Rltb_false in E. rewrite switching_clamp.
+  set (raw := switching_raw Rops r0 r0v en ed tol cell (a_pos (fst pr)) (a_pos (snd pr))) in *.
+  destruct (Rltb raw 0) eqn:E2; [reflexivity|]. apply Rltb_false in E2. lra.
+Qed.
+(* in general the pair-list value never exceeds the full sum and differs from it only by pairs not flagged at the rebuild *)
+Lemma switching_nonneg r0 r0v en ed tol cell (p1 p2 : V3) : 0 <= switching Rops r0 r0v en ed tol cell p1 p2.
+Proof. rewrite switching_clamp. destruct (Rltb _ 0) eqn:E; [lra|]. apply Rltb_false in E. exact E. Qed.
+Lemma coordnum_pairlist_le (pl : list bool) r0 r0v en ed tol cell g1 g2 : length pl = length (all_pairs g1 g2) ->
+  cv_coordnum_pl Rops pl r0 r0v en ed tol cell g1 g2 <= cv_coordnum Rops r0 r0v en ed tol cell g1 g2.
+Proof.
+  rewrite coordnum_all_pairs. unfold cv_coordnum_pl. rewrite lsum_eq. generalize (all_pairs g1 g2) as prs.
+  revert pl. induction pl as [|b pl IH]; intros [|pr prs] Hl; cbn [combine rsum length] in *; try lra; try discriminate.
+  injection Hl as Hl. specialize (IH prs Hl). cbn [fst snd].
+  pose proof (switching_nonneg r0 r0v en ed tol cell (a_pos (fst pr)) (a_pos (snd pr))). rs.
+  destruct b; lra.
+Qed.
